@@ -10,6 +10,10 @@ CLAIMED = {
          "Whole programs (functions, closures, loops, early returns, static/dynamic/native calls, tables, submodule) are generated well-scoped by construction and run both through compile+VM and through a reference AST interpreter that shares no code or representation with cao-lang; outcome kind, all globals read by name and the host-call log must agree exactly. Class coverage (calls above other frames, loops with locals, return in loop, dynamic calls, table ops, >16 globals) is measured and has floors. Search, not proof.",
          "Trusts the reference interpreter (src/refsem.rs) as the meaning of the card language; situations the language leaves undefined are discarded by the reference, never guessed. No collection runs (256 MiB limit).",
          "DESIGN.md section 4, C01"),
+ "C03": ("exploration", "metamorphic and counter-based testing of generated (also non-terminating) programs under generated budget sets (proptest-driven)",
+         "Programs built without the termination rule (while(1), unbounded recursion, repeat 10^9, looping callbacks under every re-entering std function and under host natives, up to three native->script levels) and ordinary generated programs are run under budgets from 1..64, 1..20000 and k-1/k/k+1/k/2 around the complete run's length k. An independent per-dispatch counter (hook) must never exceed the budget; runs with a sufficient budget must reproduce the complete run exactly; insufficient budgets must end in Timeout with a prefix-consistent host log; never-finishing programs must time out under every budget.",
+         "Trusts the hook counter (one increment per dispatched instruction, independent of the budget field) and the isolated-process watchdog for real hangs.",
+         "DESIGN.md section 4, C03"),
  "C04": ("exploration", "generated-input totality testing in isolated worker processes with a watchdog (proptest-driven; fork probes for inputs known to be able to kill the process)",
          "Four generated families: arbitrary card trees through the JSON and YAML loaders into the compiler (and, when they compile, into the VM), structured compile stress around every documented limit (globals, locals, upvalues, functions, card nesting, submodule depth, super chains), run-time stress templates (recursion, wide expressions, numeric boundaries, wrong operand types, cyclic tables, reserved-hash keys, tiny budgets, odd stdlib inputs) and random well-scoped programs under random budget/value-stack/call-stack sizes. A case passes when compile and run return a value; panics are caught per case, signals and hangs by the parent process, which re-runs the case twice in isolation before reporting. Search, not proof.",
          "Memory limits are not varied (collections are C02/C05). Which of Ok/Err is returned is asserted only where a template forces it (value-stack exhaustion, calling a non-function).",
